@@ -1053,6 +1053,19 @@ func ruleShape(c *Ctx) *RuleResult {
 						visit(callee, depth+1)
 					}
 				}
+			case *ssa.Lookup:
+				// a dispatch table keyed by the operator: its keys are handled
+				if g := rootGlobal(in.X); g != nil {
+					if mt, ok := in.X.Type().Underlying().(*types.Map); ok && types.Identical(mt.Key(), c.A.TokT) {
+						if cg := c.newExec(UJSON, "").constGlobalOf(g); cg.ok {
+							for _, kav := range cg.kAV {
+								if kav.nk {
+									handled[c.A.TokName[kav.n]] = true
+								}
+							}
+						}
+					}
+				}
 			}
 		}
 		visit = func(f *ssa.Function, depth int) {
